@@ -145,6 +145,24 @@ pub fn record_cmd(args: &[String]) {
                     if bytes.len() <= 4096 {
                         ev.push(json!({"op": "encode", "code": code, "ranges": ranges, "bytes": bytes}));
                         rep.evaluations += 1;
+                        // the encoder's (well-formed, often deep) stream decoded with a bias and a maximum
+                        if set.last().unwrap_or(0) < (1 << 29) {
+                            let bias = *rng.pick(&[1u32, 385, 400, 511, 512, 513, 1000, 65535]) + if rng.chance(1, 3) { rng.below(700) as u32 } else { 0 };
+                            let max = if rng.chance(1, 2) { (1u32 << 30) - 1 } else { bias + rng.below(2000) as u32 };
+                            let r = guarded(|| {
+                                IntSet::<u32>::from_sparse_bit_set_bounded(&bytes, bias, max)
+                                    .map(|(s, rem)| (s.iter_ranges().map(|r| (*r.start() as u64, *r.end() as u64)).collect::<Vec<_>>(), rem.len()))
+                            });
+                            match r {
+                                Err(p) => rep.violation(&format!("decoder panic: {p}"), json!({"kind": "sbs-decode", "bytes": bytes, "bias": bias, "max": max})),
+                                Ok(Err(_)) => ev.push(json!({"op": "decode", "bytes": bytes, "bias": bias, "max": max, "err": true, "ranges": [], "rem": 0})),
+                                Ok(Ok((rs, rem))) => {
+                                    if rs.len() <= 300 {
+                                        ev.push(json!({"op": "decode", "bytes": bytes, "bias": bias, "max": max, "err": false, "ranges": rs, "rem": rem}))
+                                    }
+                                }
+                            }
+                        }
                     }
                 }
             }
